@@ -337,7 +337,8 @@ def spec_contradicted(expr, obs):
 
 STATIC = ["C05_collect_value", "C05_add_accepts_iff", "C05_add_order_irrelevant", "C05_sum_dim", "C05_minmax_accepts",
     "C05_child_error_refuses", "C05_mul_spec", "C05_pow_spec", "C05_fun_accepts_iff", "C05_leaf_refusals",
-    "C05_quantity_ctor_spec", "C05_cancelling_prefix_refused"]
+    "C05_quantity_ctor_spec", "C05_cancelling_prefix_refused", "C05_accepts_iff_WF", "C05_refuses_iff_not_WF",
+    "C05_order_irrelevant", "C05_dim_is_product"]
 
 
 def build_cases(ctx, n_valid, n_bad, n_boundary):
